@@ -8,7 +8,10 @@ for d in sorted((ROOT / "seeded").iterdir()):
     if not m.exists():
         continue
     meta = json.loads(m.read_text())
-    if "detection" in meta and "--redo" not in sys.argv:
+    only = [a for a in sys.argv[1:] if not a.startswith("--")]
+    if only and d.name not in only:
+        continue
+    if "detection" in meta and "--redo" not in sys.argv and not only:
         continue
     t0 = time.time()
     r = subprocess.run([sys.executable, str(ROOT / "tools" / "seeded_run.py"), d.name, "--worktree"], capture_output=True, text=True)
